@@ -677,6 +677,14 @@ def zero_cases(ctx, rng, batch):
                 blk = {'H': 'kcal/mol', 'S': 'cal/mol/K', 'Cp': 'cal/mol/K', 'T': 'K'}
                 blk[kind] = u
                 check_fixed(ctx, g, blk, form, batch)
+    # a table that is constant (zero everywhere / the same value everywhere): H/RT, S/R and Cp/R have closed forms at every
+    # temperature of the range, whatever the presentation
+    for c in (Fraction(0), Fraction(5, 2)):
+        for u in L.UNITS['Cp'][:4]:
+            g = {'Tref': Fraction('298.15'), 'H': Fraction(-1000), 'S': Fraction(7), 'cp': [(Fraction(300), c), (Fraction(400), c), (Fraction(700), c)],
+                 'range': (Fraction(200), Fraction(1000))}
+            check_fixed(ctx, g, {'H': 'kJ/mol', 'S': 'J/mol/K', 'Cp': u, 'T': 'K'}, 'bare', batch)
+            check_fixed(ctx, g, {'H': 'kcal/mol', 'S': 'cal/mol/K', 'Cp': u, 'T': 'K'}, 'explicit', batch)
     # range starting at 0 K
     g = {'Tref': Fraction('298.15'), 'H': Fraction(1), 'S': None, 'cp': [], 'range': (Fraction(0), Fraction(1000))}
     check_fixed(ctx, g, {'T': 'K', 'H': 'J/mol'}, 'bare', batch)
@@ -758,6 +766,23 @@ def check_fixed(ctx, g, blk, form, batch):
         return
     o = L.obs_library(res)[name]
     check_against_expected(ctx, o, exp, inp)
+    cvals = {v for _, v in exp['cp']}
+    if len(cvals) == 1 and len(exp['cp']) >= 2 and exp['H'] is not None and exp['S'] is not None:
+        c, tr = float(next(iter(cvals))), float(exp['Tref'])
+        th = res[name]['thermochem']
+        for T in (250.0, 298.15, 350.0, 650.0, 950.0):
+            want = {'get_CpoR': c, 'get_HoRT': (float(exp['H']) * tr + c * (T - tr)) / T, 'get_SoR': float(exp['S']) + c * math.log(T / tr)}
+            for nmf, w in want.items():
+                try:
+                    with L.quiet():
+                        got = float(getattr(th, nmf)(T))
+                except Exception as e:
+                    got = 'err:' + L.err_class(e)
+                ctx.count('constant_table_evaluations')
+                if isinstance(got, str) or abs(got - w) > 1e-9 * max(1.0, abs(w)):
+                    ctx.violation('a correlation with a constant heat-capacity table does not evaluate to the closed form',
+                                  dict(inp, T=T, method=nmf), expected=w, observed=got)
+                    return
     for nmf, T, v in evaluate(res[name]['thermochem'], eval_points(g, res[name]['thermochem'])):
         if isinstance(v, str):
             missing = (nmf == 'get_HoRT' and g['H'] is None) or (nmf == 'get_SoR' and g['S'] is None) or (nmf == 'get_CpoR' and not g['cp'])
